@@ -109,6 +109,9 @@ type World struct {
 	files   map[string]*node
 	dbs     map[string]*DB
 	journal []Op
+	// what the world contained when it was materialised from a crashed one (replays start from here)
+	baseFiles map[string]*node
+	baseDB    map[string][]Op
 	crashAt int
 	crashed bool
 	// OnOp, when set, is called (under the world lock) for every journalled operation
@@ -157,6 +160,9 @@ func worldOf(path string) *World {
 // CrashBefore arms the crash switch: the operation that would become journal entry k is not
 // performed; the calling goroutine panics with CrashPanic and every later operation fails.
 func (w *World) CrashBefore(k int) { w.mu.Lock(); w.crashAt = k; w.mu.Unlock() }
+
+// Freeze kills the machine now, without unwinding anybody: every later operation fails with ErrCrashed.
+func (w *World) Freeze() { w.mu.Lock(); w.crashed = true; w.mu.Unlock() }
 
 func (w *World) Crashed() bool { w.mu.Lock(); defer w.mu.Unlock(); return w.crashed }
 
@@ -580,6 +586,14 @@ func (w *World) replay(k int) *replayState {
 	for _, n := range names {
 		st.dbs[n] = &dbReplay{}
 	}
+	w.mu.Lock()
+	for p, n := range w.baseFiles {
+		st.files[p] = &node{path: n.path, dir: n.dir, perm: n.perm, data: append([]byte{}, n.data...), synced: n.synced}
+	}
+	for name, ops := range w.baseDB {
+		st.dbs[name] = &dbReplay{ops: append([]Op{}, ops...), syncedUpTo: len(ops)}
+	}
+	w.mu.Unlock()
 	for _, op := range ops[:k] {
 		switch op.Kind {
 		case "create":
@@ -648,6 +662,11 @@ func (w *World) Materialise(k int, pol Policy) *World {
 		}
 		nw.files[np] = cp
 	}
+	nw.baseFiles = map[string]*node{}
+	for p, n := range nw.files {
+		nw.baseFiles[p] = &node{path: n.path, dir: n.dir, perm: n.perm, data: append([]byte{}, n.data...), synced: n.synced}
+	}
+	nw.baseDB = map[string][]Op{}
 	for name, d := range st.dbs {
 		ops := d.ops
 		if pol.MachineDB {
@@ -657,6 +676,7 @@ func (w *World) Materialise(k int, pol Policy) *World {
 		for _, op := range ops {
 			db.applyRaw(op)
 		}
+		nw.baseDB[name] = append([]Op{}, ops...)
 	}
 	return nw
 }
